@@ -162,7 +162,7 @@ func TestC18_Addressing(t *testing.T) {
 	c := harness.New(t, "C18", "addressing",
 		"directory trees over names {a, b, idx} at depths {., sub, sub/deep, d<ext>/} with decoys whose names merely contain the extension (a<ext>.bak, a<ext>ig, n.txt inside a directory named x<ext>, a<ext><ext>, the bare extension) and garbage in decoys; template directory nested one or two levels and spelled t, t/, ./t, x/../t, t//, /t; extensions .tw, .tw.html, .html. Oracle: the registered names (hook VerifNames) are exactly {relative path minus extension of every file whose name ends in the extension}; each renders its own content; decoys, unknown names and layouts (files with reserves) are reported as not found; EvaluateFile(path) == EvaluateString(content). Non-trivial: a nested directory, a decoy and a non-canonical spelling. Distinct by hash.")
 	defer c.Finish()
-	runRapid(t, c, 2000, 8000, func(rt *rapid.T) {
+	runRapid(t, c, 2000, 24000, func(rt *rapid.T) {
 		ext := rapid.SampledFrom([]string{".tw", ".tw.html", ".html"}).Draw(rt, "ext")
 		realDir := rapid.SampledFrom([]string{"t", "x/t", "tpl/views"}).Draw(rt, "realDir")
 		spell := rapid.SampledFrom([]string{"plain", "trailing", "dot", "parent", "double", "leading"}).Draw(rt, "spelling")
@@ -294,7 +294,7 @@ func TestC18_FaultEnumeration(t *testing.T) {
 		"for generated valid directories (page + layout + component + independent page): every file x {deleted, truncated at every byte prefix, replaced by garbage (lexeme soup), dangling symbolic link, directory in its place}. NewTemplate must return without panic or hang either (nil, error) or (template, nil). It must fail with an error naming the damaged file's path when that file is syntactically wrong by itself (decided by parsing it alone) or unreadable, and naming the layout/component (by name or path) when such a file is absent. Non-trivial: the fault is in a layout or component. Every (file, operator, prefix) of each generated tree is enumerated.")
 	defer c.Finish()
 	alpha := c08Alphabet()
-	runRapid(t, c, 12, 60, func(rt *rapid.T) {
+	runRapid(t, c, 12, 180, func(rt *rapid.T) {
 		base, role := c18ValidTree(rt)
 		// the undamaged tree must load
 		if f := c18Fault(c, faultCase{Tree: base, Op: "nothing"}); f != "" {
